@@ -189,7 +189,17 @@ pub struct DepSpec {
 }
 
 impl DepSpec {
+    /// a dependency written as a struct literal with the given flag bits: the constructor name is "literal:<bits>"
+    pub fn literal(bits: u32, name: &str, version: &str) -> DepSpec {
+        DepSpec { ctor: Box::leak(format!("literal:{}", bits).into_boxed_str()), name: name.to_string(), version: version.to_string() }
+    }
+    fn literal_bits(&self) -> Option<u32> {
+        self.ctor.strip_prefix("literal:").and_then(|b| b.parse().ok())
+    }
     pub fn make(&self) -> Dependency {
+        if let Some(bits) = self.literal_bits() {
+            return Dependency { name: self.name.clone(), flags: rpm::DependencyFlags::from_bits_retain(bits), version: self.version.clone() };
+        }
         match self.ctor {
             "any" => Dependency::any(self.name.clone()),
             "eq" => Dependency::eq(self.name.clone(), self.version.clone()),
@@ -210,6 +220,9 @@ impl DepSpec {
     }
     /// (name, flag bits, version) as documented for each constructor
     pub fn expected(&self) -> (String, u32, String) {
+        if let Some(bits) = self.literal_bits() {
+            return (self.name.clone(), bits, self.version.clone());
+        }
         let (l, g, e) = (1u32 << 1, 1u32 << 2, 1u32 << 3);
         match self.ctor {
             "any" => (self.name.clone(), 0, String::new()),
@@ -282,6 +295,8 @@ pub struct BuildSpec {
     /// values given to a setter earlier and overwritten by a later call of the same setter: the real
     /// builder is driven through the same sequence of calls (the earlier value must leave no trace)
     pub overwritten: Vec<Overwritten>,
+    /// the builder is started with `PackageBuilder::default()` instead of `new(..)` (the five required texts are then empty)
+    pub from_default: bool,
 }
 
 #[derive(Clone, Debug)]
@@ -320,6 +335,7 @@ impl BuildSpec {
             large_files: false,
             chrono_offset: None,
             overwritten: vec![],
+            from_default: false,
         }
     }
 
@@ -343,6 +359,7 @@ impl BuildSpec {
             "sign": self.sign.map(|k| k.name()),
             "large_files": self.large_files,
             "timestamps_as_chrono_with_offset": self.chrono_offset,
+            "started_from_Default": self.from_default,
             "earlier_setter_calls_overwritten_later": self.overwritten.iter().map(|o| format!("{:?}", o)).collect::<Vec<_>>(),
         })
     }
@@ -361,7 +378,7 @@ impl BuildSpec {
 
     /// The configured builder, just before `build` / `build_and_sign`.
     pub fn builder(&self, env: &Env) -> Result<PackageBuilder, rpm::Error> {
-        let mut b = PackageBuilder::new(&self.name, &self.version, &self.license, &self.arch, &self.summary);
+        let mut b = if self.from_default { PackageBuilder::default() } else { PackageBuilder::new(&self.name, &self.version, &self.license, &self.arch, &self.summary) };
         // earlier calls of setters that are called again below
         for o in &self.overwritten {
             b = match o {
